@@ -1012,6 +1012,8 @@ pub fn run(s: &mut Src, ctx: &mut Ctx) -> Verdict {
                 let (t, f) = (*to as usize, *from as usize);
                 let before = if judged { Some(snapshot(&mgr)) } else { None };
                 let res = match re {
+                    // two spellings of one call: an import without a re-export clause, through either entry point
+                    None if (t + f) % 2 == 1 => mgr.import_from_with_reexport(MODS[t], MODS[f], ty.engine(), pat.text(), None),
                     None => mgr.import_from(MODS[t], MODS[f], ty.engine(), pat.text()),
                     Some((p, tr)) => mgr.import_from_with_reexport(
                         MODS[t],
